@@ -258,6 +258,50 @@ def run(R):
                 R.ob("C14-R2", "byte-as-char:%s:%d" % (fn.name, ncast), "%s turns a byte into a char only under an ASCII test of it" % fn.name, guarded,
                      where=x.where(ln), detail=None if guarded else "each byte of a multi-byte UTF-8 character is written as a character of its own")
         R.ob("C14-R2", "pass-through", "writer and decoder copy unescaped text without unguarded byte-to-char casts (%d casts seen)" % ncast, True)
+    # ---- R4 one escape-aware scanner
+    R.rule("C14-R4", "escape-aware termination: the decoder recognises the closing quote in the SAME character scan that consumes escapes - the "
+                     "quote test and the backslash test are arms of one switch over the scanned character, the backslash arm consumes the "
+                     "following character before the scan goes on, and no look-behind / separate search decides where the literal ends "
+                     "(an escaped backslash before the closing quote must not hide the quote)")
+    if dec is not None:
+        scan = None
+        for x in prog.family(dec.key):
+            for bb, t in x.terms():
+                if t["t"] != "switch":
+                    continue
+                dl = F.op_place(t["discr"])
+                if dl is None or not is_charlike(x.local_ty(dl["l"])):
+                    continue
+                vals = {str(v): tgt for v, tgt in t["targets"]}
+                if "34" in vals and "92" in vals:
+                    # the outer scan, not the nested match on the escaped character (which has arms for both as well)
+                    if scan is None or (scan[0] is x and x.dominates(bb, scan[1])):
+                        scan = (x, bb, vals, dl)
+        R.ob("C14-R4", "one-switch", "the decoder tests the scanned character for `\"` and `\\` in one switch", scan is not None, where=dec.where(),
+             detail=None if scan else "the end of the literal is located by a different scan than the one that interprets escapes")
+        if scan is not None:
+            x, bb, vals, dl = scan
+            loops = x.loops_containing(bb)
+            R.ob("C14-R4", "in-scan-loop", "that switch sits in the loop that walks the literal", bool(loops), where=x.where())
+            # the quote arm returns Some(..)
+            qt = vals["34"]
+            qreg = {k for k in x.reachable_blocks() if x.dominates(qt, k)} | {qt}
+            ret = any(rv["rv"] == "aggregate" and rv.get("variant") == "Some" and b2 in qreg for b2, i, pl, rv, st in x.assigns())
+            R.ob("C14-R4", "quote-ends", "an unescaped quote ends the literal (the arm returns the value and the rest)", ret, where=x.where())
+            # the backslash arm consumes the next character from the same iterator as the scan
+            bt = vals["92"]
+            breg = {k for k in x.reachable_blocks() if x.dominates(bt, k)} | {bt}
+            nexts = [c for c in x.calls() if c.name() == "next" and c.bb in breg]
+            hdr_next = [c for c in x.calls() if c.name() == "next" and loops and c.bb in loops[0][1] and c.bb not in breg]
+            same_it = bool(nexts) and bool(hdr_next) and x.alias_root(nexts[0].args[0]) == x.alias_root(hdr_next[0].args[0]) or (
+                bool(nexts) and bool(hdr_next) and _it_root(x, nexts[0].args[0]) == _it_root(x, hdr_next[0].args[0]))
+            R.ob("C14-R4", "escape-consumes", "the backslash arm takes the next character from the scanning iterator before the scan continues", same_it,
+                 where=x.where(nexts[0].ln if nexts else None))
+        # no look-behind or separate terminator search
+        lb = sorted({c.name() for x in prog.family(dec.key) for c in x.calls() if c.name() in ("ends_with", "match_indices", "rmatch_indices", "rfind", "find", "split", "rsplit", "split_once", "rsplit_once")})
+        R.ob("C14-R4", "no-look-behind", "the decoder does not locate the closing quote by searching / looking behind (found %s)" % lb, not lb, where=dec.where(),
+             detail=None if not lb else "`\\\\\"` (escaped backslash, then the closing quote) looks like an escaped quote to a one-character look-behind: a "
+             "literal ending in a backslash is not decoded")
     # ---- R3
     for nm in ("clean_ntriples_term", "clean_turtle_term"):
         b = R.body("C14-R3", "SparqlDatabase::" + nm, crate="kolibrie")
@@ -267,3 +311,8 @@ def run(R):
         ok = bool(uses)
         R.ob("C14-R3", "decodes:" + nm, "%s decodes literal bodies with decode_ntriples_literal" % nm, ok, where=b.where(),
              detail=None if ok else "escaped literals written by the serializers are stored with their escapes on re-import")
+
+
+def _it_root(x, op):
+    o = x.origin(op, stop_named=True)
+    return o[1]["l"] if o[0] == "place" else None
